@@ -73,6 +73,14 @@ def value_layouts():
               ("BIN", xdoc.ptype_sb({"k": "bin", "len": {"k": "fixed", "n": 32}, "delim": WHOLE, "codec": ""}), 32),
               ("LAT", xdoc.ptype_sb({"k": "str", "len": {"k": "fixed", "n": 24}, "delim": WHOLE, "codec": "ISO-8859-1"}), 24)]
     out.append((13, fields))
+    # binary fields that are not a whole number of bytes (the parser returns ceil(bits / 8) bytes), and a referenced length
+    fields = [("B12", xdoc.ptype_sb({"k": "bin", "len": {"k": "fixed", "n": 12}, "delim": WHOLE, "codec": ""}), 12),
+              ("B20", xdoc.ptype_sb({"k": "bin", "len": {"k": "fixed", "n": 20}, "delim": WHOLE, "codec": ""}), 20),
+              ("B4", xdoc.ptype_sb({"k": "bin", "len": {"k": "fixed", "n": 4}, "delim": WHOLE, "codec": ""}), 4),
+              ("B9", xdoc.ptype_sb({"k": "bin", "len": {"k": "fixed", "n": 9}, "delim": WHOLE, "codec": ""}), 9),
+              ("NB", uint(3), 3),
+              ("BDYN", xdoc.ptype_sb({"k": "bin", "len": {"k": "dyn", "ref": "NB", "cal": False, "adj": True, "slope": 4, "icpt": 4}, "delim": WHOLE, "codec": ""}), 0)]
+    out.append((14, fields))
     return out
 
 
@@ -224,6 +232,11 @@ def run(ctx):
                     bits += [int(c) for by in BIN_SAMPLES[k % len(BIN_SAMPLES)] for c in format(by, "08b")]
                 elif nm == "LAT":
                     bits += [int(c) for by in LAT_SAMPLES[k % len(LAT_SAMPLES)] for c in format(by, "08b")]
+                elif nm == "NB":
+                    nb = (k * 3 + 1) % 8
+                    bits += [int(c) for c in format(nb, "03b")]
+                elif nm == "BDYN":
+                    bits += [1] + [rng.getrandbits(1) for _ in range(4 * nb + 4 - 2)] + [1]
                 elif nm == "EN":
                     bits += [int(c) for c in format(k % 4, "02b")]
                 elif nm == "ENS":
